@@ -80,6 +80,8 @@ type LoopInfo struct {
 	minPos  token.Pos
 	m0      Term // decreases measure at head
 	autoInv []func(phiVal func(*ssa.Phi) Term) Term
+	frameRefs map[string][]ssa.Value // comp -> loop-invariant base objects stored through in the loop
+	frameBad  map[string]bool
 }
 
 type FnCtx struct {
